@@ -11,11 +11,16 @@ from ..prov import call_name, expand1, get_arg, scope_of
 from .C04 import _check_closed_requests, reported_rule
 from .C17 import _accessors
 from .transfer_common import build_model, check_rest_attempted
+from .generic_lints import run_all as _lints
 
 ROLES = ("data", "cache", "remote")
 
 
 def check(ck: Checker) -> None:
+    _lints(ck, "C18.aliasing", "index.push", "index.fetch", "index.collect")
+    from .C07 import check_fetch_verify
+
+    check_fetch_verify(ck, "C18.roles")
     ck.decided = [
         "C18.longest: StorageMapping.__getitem__ considers exactly the prefixes of the key, longest first, and each role independently takes the first non-None storage",
         "C18.roles: push transfers cache.odb -> data.odb with the remote's index as dest_index; fetch transfers data.odb -> cache.odb with the remote's index as src_index; data/cache are the root mapping's roles",
@@ -34,6 +39,9 @@ def check(ck: Checker) -> None:
     m = build_model(ck)
     reported_rule(ck, m, "C18.counts")
     check_rest_attempted(ck, m, "C18.counts")
+    from .C12 import check_index_read_after_validation
+
+    check_index_read_after_validation(ck, "C18.closed")
     _objectpath(ck)
     _accessors(ck)
     for o in ck.obs:
